@@ -30,5 +30,5 @@ for d in seeded/${1:-}*/; do
   elif echo "$out" | grep -qv "no-failing-input-found"; then echo "CAUGHT    $id ($prop)";
   else echo "CAUGHT-NFI $id ($prop)"; fi
 done
-git -C /verif checkout -- evidence/ 2>/dev/null
+git -C /verif checkout -- evidence/ coq/gen 2>/dev/null
 git -C /repo status --short
